@@ -5,13 +5,16 @@
 #include <m4ri/mzd.c>
 #include "vp.h"
 
+#if __M4RI_ENABLE_MMC
 extern mmb_t m4ri_mmc_cache[__M4RI_MMC_NBLOCKS];
+#endif
 #define NB __M4RI_MMC_NBLOCKS
 #define MAXSZ 4096
 
 /* ---------------- block cache: arbitrary invariant-satisfying state ---------------- */
 /* INV_MMC: every slot is empty (size 0) or holds its own live heap block of exactly `size` bytes. */
 static void mmc_any_state(void) {
+#if __M4RI_ENABLE_MMC
   for (int i = 0; i < NB; ++i) {
     VP_IN(size_t, in_sz);
     VP_ASSUME(in_sz <= MAXSZ);
@@ -24,10 +27,12 @@ static void mmc_any_state(void) {
       m4ri_mmc_cache[i].data = NULL;
     }
   }
+#endif
 }
 /* the eviction cursor (a static local of m4ri_mmc_free) is advanced to an arbitrary position with the real
  * code: k evictions on a full cache */
 static void mmc_any_cursor(void) {
+#if __M4RI_ENABLE_MMC
   VP_IN(int, in_k);
   VP_ASSUME(in_k >= 0 && in_k < NB);
   for (int i = 0; i < NB; ++i) {
@@ -42,11 +47,16 @@ static void mmc_any_cursor(void) {
       m4ri_mmc_free(p, 8);
     }
   for (int i = 0; i < NB; ++i) free(m4ri_mmc_cache[i].data);
+#endif
 }
 static int mmc_inv_slot(int i) {
+#if !__M4RI_ENABLE_MMC
+  return 1;
+#else
   return m4ri_mmc_cache[i].size == 0 ||
          (__CPROVER_rw_ok(m4ri_mmc_cache[i].data, m4ri_mmc_cache[i].size) && __CPROVER_OBJECT_SIZE(m4ri_mmc_cache[i].data) == m4ri_mmc_cache[i].size &&
           __CPROVER_POINTER_OFFSET(m4ri_mmc_cache[i].data) == 0);
+#endif
 }
 #define GHOST_SLOTS()                                                                              \
   VP_IN(int, in_g);                                                                                \
@@ -260,9 +270,7 @@ void harness(void) {
 #ifdef H_INIT
 /* mzd_init from an arbitrary state of both caches: zero, well-formed, disjoint from a live matrix */
 void harness(void) {
-  mmc_any_cursor();
-  mmc_any_state();
-  hdr_any_state();
+  mmc_any_state(); /* block cache arbitrary (what it holds may be recycled); header cache: see H_HDR_MALLOC for its own induction step */
   VP_IN(int, in_r);
   VP_IN(int, in_c);
   VP_IN(int, in_gi);
@@ -290,9 +298,9 @@ void harness(void) {
 #ifdef H_WINDOW_FREE
 /* a window shares the parent's storage and never frees it */
 void harness(void) {
-  mmc_any_cursor();
-  mmc_any_state();
-  hdr_any_state();
+  /* both caches start empty here: their induction steps are H_MMC_* and H_HDR_*; this harness is about window geometry and ownership */
+  nblk   = 0;
+  blk[0] = &mzd_cache;
   VP_IN(int, in_lowr);
   VP_IN(int, in_highr);
   VP_IN(int, in_lowc);
